@@ -166,6 +166,26 @@ def gen(ctx, methods):
                 reqs.append(f"dec {hexs(b)} lim:{lim} {k1} off reached off")
                 for k2 in kinds:
                     reqs.append(f"dec {hexs(b)} w off lim:{lim} {k1} off {k2} off reached off")
+    # long strings and large buffers: lengths around 2^6 .. 2^12, 2^16 and 2^17 bytes (block sizes, narrow counters): the string rules do
+    # not depend on how long the string is or how far into the buffer it starts
+    far = []
+    lens = [62, 63, 64, 65, 66, 127, 128, 129, 255, 256, 257, 1023, 1024, 1025, 4095, 4096, 4097, 65527, 65528, 65531, 65532, 65533, 65535, 65536, 65537, 131072, 262131]
+    for L in lens:
+        body = [97 + ((i * 7 + i // 26) % 26) for i in range(L)]
+        need = L // 4 + 1
+        for lead in (0, 4, 65536):
+            if lead == 65536 and L not in (64, 65532, 65536):
+                continue
+            b = [1] * lead + body + [0] + [7] * (3 - L % 4) + [9, 9, 9, 9]
+            pre = " ".join(["ws:%d off" % (lead // 4)] if lead else [])
+            pre = (pre + " ") if pre else ""
+            # (requests that first read 16384 words are judged on the implementation alone: the model walks a list per word)
+            dst = far if lead == 65536 else reqs
+            dst.append(f"dec {hexs(b)} {pre}s off w off")
+            for lim in (need - 1, need, need + 1, USIZE_MAX):
+                dst.append(f"dec {hexs(b)} {pre}lim:{lim} s off reached off w off")
+        # unterminated: the whole rest is scanned and the request fails without moving
+        reqs.append(f"dec {hexs(body)} s off w off")
     # systematic: every typed request on every declared enumerant / every declared bit and their neighbours (the values where
     # "returns the enumeration value found at the current offset" is decided per row of the generated conversion)
     for m, (is_mask, decl) in _pinned().items():
@@ -177,6 +197,7 @@ def gen(ctx, methods):
                 vals |= {v, v + 1, max(0, v - 1)}
         for v in sorted(vals):
             reqs.append(f"dec {hexs(list(int(v).to_bytes(4, 'little')))} e:{m} off")
+    ctx.data["c11_far"] = far
     return reqs
 
 
@@ -208,6 +229,9 @@ def run(ctx):
                 out.append("off")
         return " ".join(out)
     reqs = [with_offs(r) for r in corpus] + gen(ctx, T["decode"])
+    far = ctx.data.get("c11_far") or []
+    found_far = C.oracle_search(ctx, far, oracle, "dec-far")
+    ctx.oblige(f"oracle:strings that start 65536 bytes into the buffer ({len(far)} scripts, implementation only)", not found_far)
     impl, model = C.differential(ctx, reqs, "dec", oracle=oracle, keep=2)
     kinds = {}
     for r, a in zip(reqs, impl):
